@@ -14,12 +14,19 @@
 //!            T                settle (sleep 1ns on the paused clock = exact quiescence)
 //!            K <a>            settle; stop (gate open) or kill (gate closed) actor a; settle
 //!            H <a> | G <a> <n> | O <a>      close gate / give n permits / open gate
+//!            R <a> | RF <a>   let a's parked pre_start return Ok / Err; settle
+//!            SS <a> <mod> <res> <mul> <add>   spawn_instant actor a whose pre_start subscribes
+//!                             ITSELF (same converter syntax) and then parks; settle
+//! Receivers: an actor with an R/RF op is spawned with `spawn_instant` before the first
+//! operation, its pre_start parked (status Starting) until R/RF; an actor with an SS op is
+//! spawned by that op; every other actor is spawned and Running before the first operation.
 //! stdout: one Coq term per scenario: the received items per subscription, `[[..]; [..]]`.
 use std::collections::{BTreeMap, HashSet};
 use std::sync::{Arc, Mutex};
 use std::time::Duration;
 
 use ractor::{Actor, ActorProcessingErr, ActorRef, OutputPort};
+use std::collections::BTreeSet;
 use rv_harness::*;
 use tokio::sync::Notify;
 
@@ -68,6 +75,32 @@ impl Gate {
     }
 }
 
+/// pre_start parks here until the driver decides how start-up ends
+#[derive(Default)]
+struct StartGate {
+    st: Mutex<Option<bool>>, // Some(ok)
+    notify: Notify,
+}
+impl StartGate {
+    async fn wait(&self) -> bool {
+        loop {
+            if let Some(ok) = *self.st.lock().unwrap() {
+                return ok;
+            }
+            self.notify.notified().await;
+        }
+    }
+    fn release(&self, ok: bool) {
+        *self.st.lock().unwrap() = Some(ok);
+        self.notify.notify_waiters();
+    }
+}
+
+struct StartArgs {
+    park: Option<Arc<StartGate>>,
+    selfsub: Option<(Arc<OutputPort<u64>>, u64, [u64; 4])>,
+}
+
 struct SubActor {
     gate: Arc<Gate>,
     rec: Arc<Mutex<Vec<(u64, u64)>>>,
@@ -77,8 +110,22 @@ struct SubActor {
 impl Actor for SubActor {
     type Msg = Item;
     type State = ();
-    type Arguments = ();
-    async fn pre_start(&self, _: ActorRef<Item>, _: ()) -> Result<(), ActorProcessingErr> {
+    type Arguments = StartArgs;
+    async fn pre_start(&self, myself: ActorRef<Item>, args: StartArgs) -> Result<(), ActorProcessingErr> {
+        if let Some((port, sid, [md, rs, mul, add])) = args.selfsub {
+            port.subscribe(myself, move |k: u64| {
+                if md != 0 && k % md == rs {
+                    Some(Item(sid, k * mul + add))
+                } else {
+                    None
+                }
+            });
+        }
+        if let Some(g) = args.park {
+            if !g.wait().await {
+                return Err(ActorProcessingErr::from("pre_start fails"));
+            }
+        }
         Ok(())
     }
     async fn handle(&self, _: ActorRef<Item>, m: Item, _: &mut ()) -> Result<(), ActorProcessingErr> {
@@ -94,7 +141,9 @@ impl Actor for SubActor {
 struct Sub {
     gate: Arc<Gate>,
     rec: Arc<Mutex<Vec<(u64, u64)>>>,
-    actor: ActorRef<Item>,
+    start: Arc<StartGate>,
+    started: bool,
+    actor: Option<ActorRef<Item>>,
 }
 
 fn u(s: &str) -> u64 {
@@ -120,26 +169,49 @@ async fn run_scenario(line: &str) -> String {
         .map(|o| o.split_whitespace().collect::<Vec<_>>())
         .filter(|w| !w.is_empty())
         .collect();
-    // all receivers exist before the first operation
+    let port: Arc<OutputPort<u64>> = Arc::new(OutputPort::default());
+    let mut parked: BTreeSet<u64> = BTreeSet::new();
+    let mut selfkind: BTreeSet<u64> = BTreeSet::new();
+    for w in &ops {
+        match w[0] {
+            "R" | "RF" => {
+                parked.insert(u(w[1]));
+            }
+            "SS" => {
+                selfkind.insert(u(w[1]));
+            }
+            _ => {}
+        }
+    }
+    // receivers: Running, or Starting (parked in pre_start), before the first operation;
+    // self-subscribing ones are spawned by their SS operation
     let mut actors: BTreeMap<u64, Sub> = BTreeMap::new();
     for w in &ops {
-        if matches!(w[0], "S" | "K" | "H" | "G" | "O") {
+        if matches!(w[0], "S" | "K" | "H" | "G" | "O" | "R" | "RF" | "SS") {
             let a = u(w[1]);
             if !actors.contains_key(&a) {
                 let gate = Arc::new(Gate::default());
                 let rec = Arc::new(Mutex::new(Vec::new()));
-                let (actor, _h) = Actor::spawn(
-                    None,
-                    SubActor { gate: gate.clone(), rec: rec.clone(), poison: poison.get(&a).cloned().unwrap_or_default() },
-                    (),
-                )
-                .await
-                .expect("spawn");
-                actors.insert(a, Sub { gate, rec, actor });
+                let start = Arc::new(StartGate::default());
+                let handler =
+                    SubActor { gate: gate.clone(), rec: rec.clone(), poison: poison.get(&a).cloned().unwrap_or_default() };
+                let (actor, started) = if selfkind.contains(&a) {
+                    (None, false)
+                } else if parked.contains(&a) {
+                    let (r, _h) =
+                        ractor::ActorRuntime::<SubActor>::spawn_instant(None, handler, StartArgs { park: Some(start.clone()), selfsub: None })
+                            .expect("spawn_instant");
+                    (Some(r), false)
+                } else {
+                    let (r, _h) = Actor::spawn(None, handler, StartArgs { park: None, selfsub: None })
+                        .await
+                        .expect("spawn");
+                    (Some(r), true)
+                };
+                actors.insert(a, Sub { gate, rec, start, started, actor });
             }
         }
     }
-    let port: OutputPort<u64> = OutputPort::default();
     settle().await;
     let mut subs: Vec<u64> = Vec::new(); // subscription id -> actor
     for w in &ops {
@@ -156,7 +228,7 @@ async fn run_scenario(line: &str) -> String {
                 let (md, rs, mul, add) = (u(w[2]), u(w[3]), u(w[4]), u(w[5]));
                 let sid = subs.len() as u64;
                 subs.push(a);
-                port.subscribe(actors[&a].actor.clone(), move |k: u64| {
+                port.subscribe(actors[&a].actor.clone().expect("S before SS"), move |k: u64| {
                     if md != 0 && k % md == rs {
                         Some(Item(sid, k * mul + add))
                     } else {
@@ -165,13 +237,42 @@ async fn run_scenario(line: &str) -> String {
                 });
             }
             "T" => settle().await,
+            "SS" => {
+                let a = u(w[1]);
+                let conv = [u(w[2]), u(w[3]), u(w[4]), u(w[5])];
+                let sid = subs.len() as u64;
+                subs.push(a);
+                let e = actors.get_mut(&a).unwrap();
+                assert!(e.actor.is_none(), "SS twice");
+                let handler = SubActor {
+                    gate: e.gate.clone(),
+                    rec: e.rec.clone(),
+                    poison: poison.get(&a).cloned().unwrap_or_default(),
+                };
+                let (r, _h) = ractor::ActorRuntime::<SubActor>::spawn_instant(
+                    None,
+                    handler,
+                    StartArgs { park: Some(e.start.clone()), selfsub: Some((port.clone(), sid, conv)) },
+                )
+                .expect("spawn_instant");
+                e.actor = Some(r);
+                settle().await;
+            }
+            "R" | "RF" => {
+                let e = actors.get_mut(&u(w[1])).unwrap();
+                e.start.release(w[0] == "R");
+                e.started = w[0] == "R";
+                settle().await;
+            }
             "K" => {
                 let s = &actors[&u(w[1])];
                 settle().await;
-                if s.gate.is_open() {
-                    s.actor.stop(None);
-                } else {
-                    s.actor.kill();
+                if let Some(actor) = &s.actor {
+                    if s.started && s.gate.is_open() {
+                        actor.stop(None);
+                    } else {
+                        actor.kill();
+                    }
                 }
                 settle().await;
             }
@@ -188,7 +289,9 @@ async fn run_scenario(line: &str) -> String {
     }
     // tear down
     for s in actors.values() {
-        s.actor.kill();
+        if let Some(actor) = &s.actor {
+            actor.kill();
+        }
     }
     drop(port);
     settle().await;
